@@ -230,7 +230,7 @@ func (g *Gen) script(ci int, self common.Address, maxInit int, isInit bool) Scri
 			return s
 		case 10:
 			k := []string{"rv", "iv", "st"}[g.r.Intn(3)]
-			if isInit && k == "iv" {
+			if (isInit || strings.Contains(g.w.fork.label, "@026")) && k == "iv" {
 				k = "rv" // CREATE forwards all gas: an INVALID in creation code would starve what follows
 			}
 			s = append(s, Act{Kind: k})
@@ -623,7 +623,11 @@ func (g *Gen) stakeOps() Script {
 	half := new(big.Int).Div(oneRPG, big.NewInt(2))
 	vals := []*big.Int{half, rpg(1), new(big.Int).Add(rpg(1), new(big.Int).Mul(big.NewInt(9), new(big.Int).Div(oneRPG, big.NewInt(10)))),
 		rpg(3), rpg(400), rpg(2000), big.NewInt(1), big.NewInt(0),
-		new(big.Int).Mul(new(big.Int).Lsh(big.NewInt(1), 64), oneRPG)}
+		new(big.Int).Mul(new(big.Int).Lsh(big.NewInt(1), 64), oneRPG),
+		// around the uint64 boundary of the whole-token truncation: 2^64-1 tokens, one wei below 2^64 tokens
+		new(big.Int).Mul(new(big.Int).Sub(new(big.Int).Lsh(big.NewInt(1), 64), big.NewInt(1)), oneRPG),
+		new(big.Int).Sub(new(big.Int).Mul(new(big.Int).Lsh(big.NewInt(1), 64), oneRPG), big.NewInt(1)),
+		new(big.Int).Sub(oneRPG, big.NewInt(1)), new(big.Int).Add(oneRPG, big.NewInt(1))}
 	var s Script
 	n := 1 + g.r.Intn(3)
 	for i := 0; i < n; i++ {
